@@ -24,7 +24,7 @@ m = dict(
     version=1,
     setup_cmd='bin/build.sh all',
     hooks=dict(guard='verif', enable='go build -tags verif of /verif/go with replace => /repo (bin/build.sh go); the hooks only expose stage outputs (lexer tokens, FOR pass loop, expression evaluation), the VM checks use the public API only',
-               baseline_off_cmd='cd /repo && go test -vet=off -count=1 ./...', source_commits=['59338c9', 'b5904d3'], add_only=True),
+               baseline_off_cmd='cd /repo && go test -vet=off -count=1 ./...', source_commits=['59338c9', 'b5904d3', 'd635afd'], add_only=True),
     engines=[dict(name='coq-proof+correspondence', path='/verif/bin/check', serves_properties=[c['property_id'] for c in checks],
                   kind_free_text='Coq 8.16 theorems about hand-written Gallina models (coq/theories), tied to /repo on every run by differential correspondence of the extracted model and monitored by the extracted reference specs')],
     checks=checks, notes=NOTES, not_applicable=na)
